@@ -43,7 +43,20 @@ def _has_call(e, name):
     return any(last_seg(c[1]) == name for c in expr_calls(e))
 
 
-def classify(e, p):
+def _var_mentions(f, x, name, depth=0):
+    """Does the value of `x` come from a call of `name` - directly, or (a local assigned in several arms, as in
+    `match opt.negative_exponent_break() { Some(v) => v.get(), None => -5 }`) through one of its assignments?"""
+    x = strip_casts(x)
+    if _has_call(x, name):
+        return True
+    if f is not None and x[0] == "var" and depth < 3:
+        for _bb, _j, rv, pr in f.defs().get(x[1], []):
+            if not pr and _var_mentions(f, rvalue_expr(f, rv, 1, x[1]), name, depth + 1):
+                return True
+    return False
+
+
+def classify(e, p, f=None):
     """Map a path atom to one of A (no_exponent_notation), R (required_exponent_notation),
     L (sci_exp below the negative break), G (above the positive break), N (sci_exp < 0).
     Returns (name, polarity, x) or ("?", why, None) for a break comparison of the wrong shape."""
@@ -56,12 +69,27 @@ def classify(e, p):
             return ("A", p, None)
         if n == "required_exponent_notation":
             return ("R", p, None)
+        if n == "contains" and len(e[2]) == 2:
+            # `(min_exp..=max_exp).contains(&sci_exp)`: inside both break points at once
+            def peel(x):
+                x = strip_casts(x)
+                while x[0] == "ref" or (x[0] == "proj" and all(q == "*" for q in x[2])):
+                    x = strip_casts(x[1])
+                return x
+            rg, x = peel(e[2][0]), peel(e[2][1])
+            if rg[0] == "call" and "RangeInclusive" in rg[1] and last_seg(rg[1]) == "new" and len(rg[2]) == 2:
+                lo, hi = strip_casts(rg[2][0]), strip_casts(rg[2][1])
+                if _var_mentions(f, lo, "negative_exponent_break") and _var_mentions(f, hi, "positive_exponent_break"):
+                    return ("W", p, x)
+                return ("?", "the break-point window is not `negative_exponent_break ..= positive_exponent_break`", None)
+            if rg[0] in ("call", "agg") and "Range" in show(rg)[:60] and (_var_mentions(f, rg, "negative_exponent_break") or _var_mentions(f, rg, "positive_exponent_break")):
+                return ("?", "the break points are tested with a half-open range: the positive break value itself must still be positional", None)
         return None
     if e[0] != "bin" or e[1] not in ("Lt", "Gt", "Le", "Ge"):
         return None
     op, a, b = e[1], strip_casts(e[2]), strip_casts(e[3])
-    neg = lambda x: _has_call(x, "negative_exponent_break")
-    pos = lambda x: _has_call(x, "positive_exponent_break")
+    neg = lambda x: _var_mentions(f, x, "negative_exponent_break")
+    pos = lambda x: _var_mentions(f, x, "positive_exponent_break")
     zero = lambda x: x == ("k", 0)
     if not (neg(a) or neg(b) or pos(a) or pos(b) or zero(a) or zero(b)):
         return None
@@ -101,7 +129,46 @@ def rule_notation(col, facts):
             continue
         base = f.short.replace(WF, "")
         seen.append(base.split("::")[0])
-        paths = enum_paths(f, 0, set(tg))
+        from rules.core import simplify_proj
+        paths = []
+        for t, atoms0, env in enum_paths(f, 0, set(tg), want_env=True):
+            # the tests as written, except that *boolean* locals assigned in several arms and tuples of them are read
+            # along the path (`let use_exponent = if no_exponent_notation() { false } else ..`,
+            # `match (use_exponent, sci_exp < 0)`); integer locals (`min_exp`) stay as they are so that their origin
+            # can be read off their assignments.  `!x` is peeled; a path on which such a test is the constant of the
+            # other polarity cannot be taken.
+            def res(e, depth=0):
+                e = strip_casts(simplify_proj(strip_casts(e)))
+                if depth > 8:
+                    return e
+                if e[0] == "var" and e[1] in env and str(f.locals[e[1]]) == "bool":
+                    v = env[e[1]]
+                    if v[0] == "const":
+                        return ("k", bool(v[1]))
+                    if v[1] != e:
+                        return res(v[1], depth + 1)
+                    return e
+                if e[0] == "proj" and strip_casts(e[1])[0] == "var" and strip_casts(e[1])[1] in env and str(f.locals[strip_casts(e[1])[1]]).startswith("("):
+                    v = env[strip_casts(e[1])[1]]
+                    if v[0] == "expr" and v[1] != strip_casts(e[1]):
+                        return res(("proj", v[1]) + tuple(e[2:]), depth + 1)
+                    return e
+                if e[0] == "un" and e[1] == "Not":
+                    return ("un", "Not", res(e[2], depth + 1))
+                return e
+            atoms = []
+            feasible = True
+            for e, p in atoms0:
+                e = res(e)
+                while e[0] == "un" and e[1] == "Not" and isinstance(p, bool):
+                    e, p = res(e[2]), not p
+                if e[0] == "k" and isinstance(e[1], bool) and isinstance(p, bool):
+                    if e[1] != p:
+                        feasible = False
+                    continue
+                atoms.append((e, p))
+            if feasible:
+                paths.append((t, atoms))
         col.check(R, base + ":paths", len(paths) >= 3, "no path reaches the writers", f.loc())
         xs = set()
         bad = {}
@@ -109,20 +176,26 @@ def rule_notation(col, facts):
             w = tg[t]
             v = {}
             for e, p in atoms:
-                c = classify(e, p)
+                c = classify(e, p, f)
                 if c is None:
                     continue
                 if c[0] == "?":
                     bad.setdefault("shape", c[1])
                     continue
-                v[c[0]] = c[1]
+                if c[0] == "W":
+                    if c[1]:
+                        v["L"] = v["G"] = False          # inside the window: neither below nor above
+                    else:
+                        v["LG"] = True                   # outside: below or above
+                else:
+                    v[c[0]] = c[1]
                 if c[2] is not None:
                     xs.add(c[2])
             sci = w.endswith("_scientific")
             if sci:
                 if v.get("A") is not False:
                     bad.setdefault("forbidden", "%s is reachable without no_exponent_notation() tested false" % w)
-                if not (v.get("R") is True or v.get("L") is True or v.get("G") is True):
+                if not (v.get("R") is True or v.get("L") is True or v.get("G") is True or v.get("LG") is True):
                     bad.setdefault("unrequired", "%s is reachable although the format does not require notation and sci_exp was found inside both break points (atoms %s)" % (w, v))
             else:
                 if not (v.get("A") is True or (v.get("R") is False and v.get("L") is False and v.get("G") is False)):
